@@ -1,8 +1,8 @@
 SPECIFICATION Spec
 CONSTANTS Box = 13
- Quota = 6
- EQuota = 6
- MQuota = 6
+ Quota = 8
+ EQuota = 8
+ MQuota = 8
 INVARIANT ClipOK
 INVARIANT RefineOK
 INVARIANT LemmaOK
